@@ -243,8 +243,15 @@ def unsat_biased_body(g, rng, n_named=4, p_named=0.8, nested=True, histories=Tru
             return popped_names.pop(0)
         nn[0] += 1
         return "n%d" % nn[0]
+    asserted_ids = set()
+    allow_dups = rng.random() < 0.08
     def mk_assert():
         f = small_formula()
+        for _ in range(6):
+            if allow_dups or f not in asserted_ids:
+                break
+            f = small_formula()
+        asserted_ids.add(f)
         nm, inner = "", []
         if rng.random() < p_named:
             nm = fresh_name(); level_names[-1].append(nm)
